@@ -721,3 +721,7 @@ def check(ctx):
           and any(t[1] == ("a", n("self"), "sample_next_epoch") for t, _, _ in lp["calls"]))
     ctx.ob("C07.R2", sae, "sample_all_epochs samples one epoch at a time while the epoch "
                           "manager has more", ok)
+
+    # ---- shared mechanisms: the neighbour's rules run as obligations of this property
+    ctx.include("C12", "C07.R9", only=['C12.R3'])
+    ctx.rule("R9", "shared mechanisms, run as obligations of this property: the history handed to tune is that epoch's recorded chain (C12.R3).")
